@@ -20,6 +20,7 @@ package yang
 
 import (
 	"fmt"
+	"sort"
 	"sync"
 )
 
@@ -356,12 +357,8 @@ func (ms *Modules) Process() []error {
 	// what order to process them in, so repeat until no progress is made
 
 	mods := make([]*Module, 0, len(ms.Modules)+len(ms.SubModules))
-	for _, m := range ms.Modules {
-		mods = append(mods, m)
-	}
-	for _, m := range ms.SubModules {
-		mods = append(mods, m)
-	}
+	mods = append(mods, inKeyOrder(ms.Modules)...)
+	mods = append(mods, inKeyOrder(ms.SubModules)...)
 	for len(mods) > 0 {
 		var processed int
 		for i := 0; i < len(mods); {
@@ -413,7 +410,7 @@ func (ms *Modules) Process() []error {
 	// an entry does not exist.
 	dvP := map[string]bool{} // cache the modules we've handled since we have both modname and modname@revision-date
 	for _, devmods := range []map[string]*Module{ms.Modules, ms.SubModules} {
-		for _, m := range devmods {
+		for _, m := range inKeyOrder(devmods) {
 			e := ToEntry(m)
 			if !dvP[e.Name] {
 				errs = append(errs, e.ApplyDeviate(ms.ParseOptions.DeviateOptions)...)
@@ -423,6 +420,22 @@ func (ms *Modules) Process() []error {
 	}
 
 	return errorSort(errs)
+}
+
+// inKeyOrder returns the modules in m ordered by their keys. Augments and
+// deviations are applied in this order so that the outcome of two modules
+// touching the same node does not depend on map iteration order.
+func inKeyOrder(m map[string]*Module) []*Module {
+	keys := make([]string, 0, len(m))
+	for k := range m {
+		keys = append(keys, k)
+	}
+	sort.Strings(keys)
+	mods := make([]*Module, 0, len(keys))
+	for _, k := range keys {
+		mods = append(mods, m[k])
+	}
+	return mods
 }
 
 // include resolves all the include and import statements for m.  It returns
